@@ -509,7 +509,7 @@ func symptoms(p bo.Box, ls []oline, avail pr.Fl, items []item, em int) []string 
 			(i+2 == len(items) || items[i+2].Kind != 'W')
 	}
 	words := 0
-	blank, lastJust, dropped := false, false, false
+	blank, lastJust, dropped, brAtLimit := false, false, false, false
 	prevEndsAtSpaceBeforeBr := false
 	for k, l := range ls {
 		if len(l.frags) == 0 && l.w == 0 && prevEndsAtSpaceBeforeBr {
@@ -532,6 +532,9 @@ func symptoms(p bo.Box, ls []oline, avail pr.Fl, items []item, em int) []string 
 				}
 				if j < len(items) && items[j].Kind == 'H' {
 					prevEndsAtSpaceBeforeBr = true
+					if avail-l.w < pr.Fl(em) {
+						brAtLimit = true // the line ended there because the space did not fit
+					}
 				}
 				j = after
 				for j < len(items) && items[j].Kind == 'C' {
@@ -547,6 +550,8 @@ func symptoms(p bo.Box, ls []oline, avail pr.Fl, items []item, em int) []string 
 	}
 	if blank {
 		tags = append(tags, "impl-blank-line-before-br")
+	} else if brAtLimit {
+		tags = append(tags, "impl-space-before-br-at-limit")
 	}
 	if lastJust {
 		tags = append(tags, "impl-last-line-justified")
